@@ -777,6 +777,9 @@ class Family:
                 sf, ss = size_independence(root, tier)
                 findings += sf
                 stats.update(ss)
+                nf2, ns2 = insert_during_rewrite(root)
+                findings += nf2
+                stats.update(ns2)
         finally:
             shutil.rmtree(root, ignore_errors=True)
         findings.sort(key=lambda f: f.kind == "correspondence")   # concrete failing inputs first
@@ -992,6 +995,62 @@ def mode_checks(root, tier):
         if findings:
             break
     return findings[:3], dict(mode_checks=n)
+
+
+def insert_during_rewrite(root):
+    """C16 / C04: an insert issued while an update or removal is under way (a user callable that writes an audit point and
+    changes nothing itself) only appends to the database file: the bytes before are a prefix of the bytes after, the file
+    grows by exactly the audit row, and the row is still there once the outer operation has returned"""
+    tf = C.import_tinyflux()
+    from datetime import datetime, timedelta, timezone
+
+    findings = []
+    d = tempfile.mkdtemp(prefix="nested_", dir=root)
+    t0 = datetime(2021, 1, 1, tzinfo=timezone.utc)
+    try:
+        for au in (True, False):
+            for kind in ("update(tags=callable)", "update(query.test(callable), …)", "remove(query.test(callable))"):
+                path = os.path.join(d, f"n{au}{kind[:9].replace('(', '_')}.csv")
+                db = tf.TinyFlux(path, auto_index=au)
+                db.insert_multiple(tf.Point(time=t0 + timedelta(seconds=i), measurement="m", tags={"a": str(i)}) for i in range(4))
+                seen = {}
+
+                def audit(*_args, db=db, seen=seen, path=path):
+                    if "before" not in seen:
+                        seen["before"] = open(path, "rb").read()
+                        seen["ret"] = db.insert(tf.Point(time=t0 + timedelta(days=1), measurement="audit", tags={"who": "cb"}))
+                        seen["after"] = open(path, "rb").read()
+                    return {} if kind.startswith("update(tags") else False
+
+                try:
+                    if kind.startswith("update(tags"):
+                        db.update(tf.TagQuery().a == "0", tags=audit)
+                    elif kind.startswith("update(query"):
+                        db.update(tf.TagQuery().a.test(audit), tags={"z": "1"})
+                    else:
+                        db.remove(tf.TagQuery().a.test(audit))
+                    err = None
+                except Exception as e:
+                    err = type(e).__name__ + ": " + str(e)[:60]
+                db.close()
+                final = open(path, "rb").read()
+                problems = []
+                if "after" in seen:
+                    b, a = seen["before"], seen["after"]
+                    if not a.startswith(b) or len(a) <= len(b):
+                        problems.append(f"the insert returned {seen.get('ret')} but the file went from {len(b)} to {len(a)} bytes "
+                                        f"(prefix kept: {a.startswith(b)})")
+                    elif b"audit" not in a[len(b):]:
+                        problems.append(f"the appended bytes do not hold the inserted row: {a[len(b):][:80]!r}")
+                    if err is None and b"audit" not in final:
+                        problems.append("after the outer operation returned the inserted row is not in the file")
+                if problems:
+                    findings.append(Finding(
+                        "impl-vs-spec", f"csv/{'auto' if au else 'noauto'}: db.insert(...) from inside {kind}: " + "; ".join(problems),
+                        dict(family="io-insert-during-rewrite", auto_index=au, kind=kind, observed=problems, outer_error=err)))
+    finally:
+        shutil.rmtree(d, ignore_errors=True)
+    return findings[:1], {"insert_during_rewrite": 6}
 
 
 def size_independence(root, tier):
